@@ -247,6 +247,40 @@ def key_columns(ctx, gm: GroupModel, rule: str) -> None:
         elif got[""] == "key":
             problems.append(f"key column is named `{gm.sh(o.name_base, 60)}`: a column whose stored name is '' comes out renamed to 'key' "
                             f"(a falsy test where `is None` is meant)")
+        # a key keeps its OWN stored name: the first key of each stored name keeps it as it is, and the names of all keys are in the
+        # uniquifier's set before the first synthetic name ('key' for an unnamed key, a numbered repeat) is chosen - made unique left
+        # to right, an unnamed key placed before a key named 'key' takes that name and the real column comes back as 'key2'
+        from ..symx import flatten_conds as _fc
+        keep_ok = False
+        if o.name_keep is not None:
+            cnd, kept = o.name_keep
+            flip = {"Is": "IsNot", "IsNot": "Is", "In": "NotIn", "NotIn": "In", "Eq": "NotEq", "NotEq": "Eq"}
+            conj = [c if pol else (("cmp", flip[c[1]]) + tuple(c[2:]) if c[0] == "cmp" and c[1] in flip else ("un", "Not", c))
+                    for c, pol in _fc(((cnd, True),))]
+            not_none = any(c == ("cmp", "IsNot", N, NONE) for c in conj)
+            seen_sets = [c[3] for c in conj if c[0] == "cmp" and c[1] == "NotIn" and c[2] == N and c[3][0] == "obj"
+                         and it.objs[c[3][1]].kind == "set" and not it.objs[c[3][1]].init and o.loop not in it.objs[c[3][1]].loops]
+            recorded = any(e.kind == "call" and e.term[1][0] == "attr" and e.term[1][2] == "add" and e.term[1][1] in seen_sets
+                           and e.term[2] == (N,) and o.loop in e.loops and any(c == (cnd, True) or c[0] == cnd for c in e.conds)
+                           for e in it.events)
+            keep_ok = kept == N and not_none and bool(seen_sets) and recorded and len(conj) == 2
+        reserved = False
+        for e in it.events:
+            if e.kind == "call" and e.term[1][0] == "attr" and e.term[1][2] == "update" and e.term[1][1][0] == "obj" and e.seq < o.ev.seq \
+                    and o.loop not in e.loops and len(e.term[2]) == 1 and e.term[2][0][0] == "obj":
+                els = [x for x in it.events if x.kind == "elem" and x.term == e.term[2][0]]
+                if len(els) == 1 and els[0].loops and OVER is not None:
+                    lp2 = it.loops[els[0].loops[-1]]
+                    src2 = lp2.domain if (lp2.domain is not None and lp2.domain[0] != "tuple") else lp2.iter
+                    n2 = ("attr", ("elem", lp2.iter, lp2.id), "_name")
+                    filt = [c for c, pol in _fc(els[0].conds[len(lp2.conds):])]
+                    if src2 == OVER and els[0].value == n2 and all(c in (("cmp", "IsNot", n2, NONE), ("cmp", "Is", n2, NONE)) for c in filt):
+                        reserved = True
+        if not (keep_ok and reserved):
+            problems.append("key names are made unique left to right instead of the keys' own stored names being taken first ("
+                            + ("the first key of a stored name does not keep it as it is" if not keep_ok else
+                               "the stored names of all keys are not put into the uniquifier's set before the key loop")
+                            + "): an unnamed key placed before a key named 'key' takes that name and the real column comes back as 'key2'")
         if gm.which != "aggregate" and getattr(ctx, "prop", "") == "C13":
             from ..symx import kw as _kw
             dt = _kw(o.ev.term, "dtype") if o.ev.term[0] == "call" else None
